@@ -31,7 +31,9 @@ RULES["C18"] = (
     "faces at a vertex (fan), a breadth-first patch of 3-10 faces, one half of a body or both caps of a prism removed "
     "(cap / tube / hemisphere / closed body with a larger hole / two bodies of which one keeps only small holes), then "
     "1-4 triangle or quad holes clear of those loops; enumerated on 7 templates (every clear single face and adjacent "
-    "pair). (c) subdivide(all | face subset, 1-2 rounds), remesh.subdivide with "
+    "pair). (c) subdivide(all | face subset, 1-2 rounds; the subset written as int64 / int32 / uint8 array, list, reversed, "
+    "unsorted, with repeated entries, with negative indices, both mixed, boolean array, list of bools - every subset of "
+    "the tetrahedron in all 11 forms), remesh.subdivide with "
     "return_index and tagged vertex attributes, subdivide_to_size(max_edge = ratio x longest edge, max_iter, "
     "return_index), subdivide_loop(1-3 iterations), on closed and open (faces removed) meshes, half of them in an "
     "unwelded description (exact copies, so positions coincide): a translated twin touching the original at a vertex "
@@ -51,6 +53,9 @@ ASSUMPTIONS["C18"] = [
     "fill_holes next to unfillable loops (C18.holes_mixed): checked when the boundary loops of the input are vertex-disjoint "
     "simple cycles; then every loop of 3 or 4 edges must be closed (len-2 new faces on its vertices, wound against its "
     "neighbours), loops of 5+ edges must be exactly the boundary that is left, and the return value must equal closedness",
+    "face_index of subdivide is read with numpy index semantics (what `face_mask[face_index] = True` does on the unchanged tree): "
+    "order and repetition are irrelevant, negative entries count from the end, a boolean array / list of length F selects "
+    "where True; the docstring only names '(n,) int array of indices', boolean forms are tagged form=bool in the signature",
     "subdivide_to_size: the raise / no-raise clause is skipped when some edge/2^k is within 1e-9 (relative) of max_edge",
     "subdivide_loop positions are compared with the docstring masks only when every boundary vertex lies on exactly two "
     "boundary edges; new-vertex order is not assumed (vertices are matched by position)",
@@ -841,6 +846,43 @@ def check_children_inside(Vn, child_faces, tri, scale, sig, txt):
     check(bool((bary >= -tol).all()) and bool((dist <= tol * scale).all()), sig, lambda: f"{txt}: barycentric min {bary.min()!r}, plane distance max {dist.max()!r}")
 
 
+SUBSET_FORMS = ["int64", "int32", "uint8", "list", "reversed", "unsorted", "repeated", "negative", "mixed_sign_repeated", "bool", "bool_list"]
+
+
+def subset_argument(subset, nf, form, fseed):
+    """the same face subset written in the ways an index argument can be written (numpy index semantics: order and
+    repetition do not matter, -k counts from the end, a boolean array of length F selects where True)"""
+    if subset is None:
+        return None
+    rs = np.random.RandomState(fseed & 0x7FFFFFFF)
+    idx = [int(i) for i in subset]
+    if form == "int64":
+        return np.array(idx, dtype=np.int64)
+    if form == "int32":
+        return np.array(idx, dtype=np.int32)
+    if form == "uint8":
+        return np.array(idx, dtype=np.uint8) if all(i < 256 for i in idx) else np.array(idx, dtype=np.int64)
+    if form == "list":
+        return list(idx)
+    if form == "reversed":
+        # (a python tuple would be a multi-dimensional index for numpy and is not a documented form)
+        return np.array(idx[::-1], dtype=np.int64)
+    if form == "unsorted":
+        return [idx[i] for i in rs.permutation(len(idx))]
+    if form in ("repeated", "mixed_sign_repeated"):
+        extra = [idx[int(i)] for i in rs.randint(0, len(idx), size=1 + len(idx) // 2)] if idx else []
+        out = idx + extra
+        out = [out[i] for i in rs.permutation(len(out))]
+        if form == "mixed_sign_repeated":
+            out = [i - nf if rs.randint(2) else i for i in out]
+        return np.array(out, dtype=np.int64) if rs.randint(2) else out
+    if form == "negative":
+        return np.array([i - nf for i in idx], dtype=np.int64)
+    mask = np.zeros(nf, dtype=bool)
+    mask[idx] = True
+    return mask if form == "bool" else mask.tolist()
+
+
 @body("C18.subdivide")
 def b_subdivide(case, ctx):
     V, F = open_mesh(case)
@@ -853,7 +895,8 @@ def b_subdivide(case, ctx):
     proper = subset is not None and 0 < len(set(subset)) < nf
     rounds = int(case.get("rounds", 1)) if subset is None else 1
     sub_l = "all" if subset is None else ("empty" if not subset else ("proper" if proper else "every_face_listed"))
-    ctx.note(nontrivial=bool(nb >= 2 or not closed or proper), cls=[f"subdivide:{cls}:{sub_l}", "subdivide:" + spec_label(case["spec"]), f"subdivide:rounds={rounds}", "subdivide:" + dirty_label(case), "subdivide:coincident_vertices" if coincident_pairs(V) else "subdivide:distinct_vertices"])
+    form = "none" if subset is None else str(case.get("form", "int64"))
+    ctx.note(nontrivial=bool(nb >= 2 or not closed or proper), cls=[f"subdivide:{cls}:{sub_l}", "subdivide:" + spec_label(case["spec"]), f"subdivide:rounds={rounds}", f"subdivide:form={form}:{sub_l}", "subdivide:" + dirty_label(case), "subdivide:coincident_vertices" if coincident_pairs(V) else "subdivide:distinct_vertices"])
     scale = float(np.abs(V).max())
     mesh = trimesh.Trimesh(vertices=V.copy(), faces=F.copy(), process=False)
     # tagged vertex attributes: (i, i*i) identifies the two end points of the edge a new vertex was put on
@@ -861,13 +904,13 @@ def b_subdivide(case, ctx):
     mesh.vertex_attributes["tag"] = np.column_stack((idx, idx * idx))
     if case.get("warm"):
         warm_up(mesh)
-    arg = None if subset is None else (np.array(subset, dtype=np.int64) if case.get("as_array", True) else list(subset))
+    arg = subset_argument(subset, nf, form, int(case.get("fseed", 0)))
     res = mesh
     for _ in range(rounds):
         res = res.subdivide(face_index=arg)
     Vn, Fn = np.asarray(res.vertices), np.asarray(res.faces)
     new = R.faces_list(Fn)
-    tag = f"{sub_l}|{cls.split(':')[0]}"
+    tag = f"{sub_l}|{cls.split(':')[0]}" + ("" if form in ("none", "int64", "list") else f"|form={form}")
     check(np.asarray(mesh.vertices).tobytes() == V.tobytes() and np.asarray(mesh.faces).tobytes() == F.tobytes(), f"C18.subdivide|source_mesh_altered|{tag}", "")
     check(len(Vn) >= nv and Vn[:nv].tobytes() == V.tobytes(), f"C18.subdivide|original_vertices_changed|{tag}", "first V vertices differ")
     nsub = nf if subset is None else len(set(subset))
@@ -961,8 +1004,30 @@ def subdivide_case(draw):
     else:
         case["subset"] = []
     case["warm"] = draw(st.booleans())
-    case["as_array"] = draw(st.booleans())
+    case["form"] = draw(st.sampled_from(SUBSET_FORMS))
+    case["fseed"] = draw(st.integers(0, 2**31 - 1))
     return case
+
+
+def enum_subsets(names, stride, offset):
+    k = 0
+    for name in names:
+        spec = ENUM_TEMPLATES[name]
+        nf = meshes.n_faces(spec)
+        for bits in range(offset, 2**nf, stride):
+            subset = [i for i in range(nf) if bits >> i & 1]
+            for form in SUBSET_FORMS:
+                k += 1
+                yield {"spec": spec, "remove": [], "pseed": 0, "subset": subset, "form": form, "fseed": k, "warm": bool(k & 1)}
+
+
+@subcheck("C18", "subdivide_forms", shards={"quick": 4, "thorough": 8})
+def s_subdivide_forms(ctx):
+    ctx.enumerate("C18.subdivide", enum_subsets(["tetra"], 1, 0), label="every_face_subset_of_tetra_x_11_ways_of_writing_face_index")
+    if ctx.tier == "quick":
+        ctx.enumerate("C18.subdivide", enum_subsets(["octa"], 4, ctx.seed % 4), label="face_subsets_of_octa_x_11_forms_every_4th", complete=False)
+    else:
+        ctx.enumerate("C18.subdivide", enum_subsets(["octa", "tetra+tetra"], 1, 0), label="every_face_subset_of_octa_and_tetra+tetra_x_11_ways_of_writing_face_index")
 
 
 @subcheck("C18", "subdivide", shards={"quick": 8, "thorough": 16})
@@ -1237,6 +1302,13 @@ REQUIRED_CLASSES["C18"] = [
     "mixed:large_loops=2:small=tri",
     "mixed:a_body_without_large_loop",
     "mixed:small_holes=3",
+    "subdivide:form=repeated:proper",
+    "subdivide:form=mixed_sign_repeated:proper",
+    "subdivide:form=negative:proper",
+    "subdivide:form=bool:proper",
+    "subdivide:form=bool_list:proper",
+    "subdivide:form=int32:proper",
+    "subdivide:form=list:proper",
     "subdivide:closed:bodies=2:all",
     "subdivide:open:bodies=1:proper",
     "subdivide:rounds=2",
